@@ -550,5 +550,18 @@ def cached_rules(F, rep, tx, CT):
     adds = [describe(f, args[1], depth=8) for i, c, args, *_ in calls(f) if callee_matches(c, r"checked_add$")]
     rep.check(starts == ["inputs_offset", "outputs_offset", "witnesses_offset"] and len(adds) == 3 and all(re.match(r"^call:size\(", a) for a in adds), "SIB-cached", "compute:prefix-sums(start=X_offset,step=size)", where,
               "loop starts %s, steps %s" % (starts, adds))
+    # the cached copies are only equal to the uncached values if precompute builds them with the cache cleared
+    for pn, pf in F.find(r"metadata::Cacheable.*::precompute$", ["fuel_tx"]):
+        if "transaction::Transaction as" in pn:
+            continue
+        pcfg = CFG(pf)
+        nones = [i for i, j, p, rv, line in assignments(pf) if p[1:] and isinstance(p[-1], list) and p[-1][0] == "f" and p[-1][2] == "metadata" and
+                 ((rv[0] == "agg" and rv[2] == "None") or (rv[0] == "use" and describe(pf, rv[1], depth=4) == "agg:Option::None"))]
+        early = [(callee_name(c).rsplit("::", 1)[-1], line) for i, c, args, dest, tgt, line in calls(pf)
+                 if not callee_matches(c, r"ops::drop|drop_in_place") and any(re.match(r"^arg:self($|\.)", describe(pf, a, depth=4)) for a in args)
+                 and not any(pcfg.dominates(x, i) for x in nones)]
+        kind = re.search(r"types::(\w+)::", pn).group(1)
+        rep.check(bool(nones) and not early, "SIB-cached", "%s::precompute:cache-cleared-before-any-accessor" % kind, "%s:%s" % (pf["file"], pf["line"]),
+                  "values stored in the cache are read through accessors while the old cache is still installed: %s" % early)
     pc = [n for n, ff in F.find(r"^fuel_tx::transaction::metadata::CommonMetadata::compute::\{closure#\d+\}$", ["fuel_tx"], required=False) if any(callee_matches(c, r"::inputs_predicate_offset_at$") for i, c, *_ in calls(ff))]
     rep.check(len(pc) == 1, "SIB-cached", "compute:predicate-offsets-from-inputs_predicate_offset_at", where, "closures calling the accessor: %s" % pc)
